@@ -6,7 +6,7 @@
 (* any fit, solver, mixture and permeate mode.  Grids that leave [0,1]      *)
 (* (upwards and downwards) exercise Raise, including the look-ahead point.  *)
 (***************************************************************************)
-EXTENDS Integers, Sequences, TLC, Q
+EXTENDS Integers, Sequences, TLC, Q, Json, IOUtils
 CONSTANT Dev
 VARIABLES run, xs, Ps, Js, fv, FR, pc
 NI == INSTANCE NICurve WITH Add <- QAdd, Sub <- QSub, Mul <- QMul, Div <- QDiv, Lt <- QLt, Le <- QLe, Eq <- QEq, Dec <- QLit
@@ -14,6 +14,12 @@ Runs == [N: 0..3, x0w: {QRat(1, 4), QRat(3, 4)}, dx: {QRat(1, 16), QRat(1, 8), Q
          P0: {<<QLit("3"), QRat(1, 2)>>}]
 E0s == [f1: {QLit("2"), QRat(1, 3)}, f2: {QLit("5")}]
 Es  == [J1: {QLit("1")}, J2: {QLit("2")}, f1n: {QRat(1, 2), QLit("4")}, f2n: {QRat(1, 7), QLit("3")}]
+\* leg C: the run shapes of this instance are written out; recorded curves of the real model must cover every one of them
+Shapes == {[N |-> r.N, hasInit |-> r.hasInit, up |-> QLt(QLit("0"), r.dx),
+            outcome |-> IF NI!ReturnsByGrid(r.x0w, r.dx, r.N) THEN "return" ELSE "raise"] : r \in Runs}
+RECURSIVE SetToSeqR(_)
+SetToSeqR(S) == IF S = {} THEN <<>> ELSE LET z == CHOOSE z \in S : TRUE IN <<z>> \o SetToSeqR(S \ {z})
+ASSUME IF "SHAPE_FILE" \in DOMAIN IOEnv THEN ndJsonSerialize(IOEnv.SHAPE_FILE, SetToSeqR(Shapes)) ELSE TRUE
 Init == pc = "init" /\ run = <<>> /\ xs = <<>> /\ Ps = <<>> /\ Js = <<>> /\ fv = <<>> /\ FR = <<>>
 DoStart == \E r \in Runs, e0 \in E0s : NI!Start(r, e0)
 DoStep == \E e \in Es : NI!Step(e)
